@@ -417,6 +417,9 @@ func runC05(ctx *runCtx) {
 	rep := ctx.rep
 	rep.Rule = "2..8 writers (alternating Write and 3-chunk streaming Writer) x 0..2 pingers x one reader receiving fragmented (compressed) messages with interleaved pings x a closer {none, Close, CloseNow, context cancel} firing after a seeded delay, both roles, compression {off, takeover, no takeover}, transport delivering writes whole or in 1/7/64-byte pieces with yields; " +
 		"every payload carries (writer, sequence, length, crc); oracle at a raw peer: the emitted stream is conformant, every message equals exactly one written message, per-writer order holds, every acknowledged write arrives; reads racing with the closer return the message or a prefix plus an error. Thorough tier repeats under the Go race detector. distinct = scenario tuple"
+	if cirTraceReplay(ctx) {
+		return
+	}
 	if ctx.replay != "" {
 		var cc c05Case
 		if err := loadReplay(ctx.replay, &cc); err == nil && cc.Writers > 0 {
@@ -504,6 +507,7 @@ func runC05(ctx *runCtx) {
 	if raceEnabled {
 		rep.count("race-detector-on")
 	}
+	cirTraceValidation(ctx, cirTraceN(ctx))
 	rep.sample(cases[0])
 	rep.sample(cases[len(cases)-1])
 }
